@@ -372,28 +372,7 @@ func framingRules(c *Ctx, rule string, pkgs []string) {
 					}
 					break
 				}
-				var bound int64 = -1
-				f.Any(b, func(l Lit) bool {
-					bin, ok := l.V.(*ssa.BinOp)
-					if !ok {
-						return false
-					}
-					k, isK := intConst(bin.Y)
-					if !isK || bin.X != base {
-						return false
-					}
-					switch {
-					case bin.Op == token.GTR && !l.Pol:
-						bound = k
-					case bin.Op == token.GEQ && !l.Pol:
-						bound = k - 1
-					case bin.Op == token.LEQ && l.Pol:
-						bound = k
-					case bin.Op == token.LSS && l.Pol:
-						bound = k - 1
-					}
-					return false
-				})
+				bound := lengthBoundAt(w, rd, f, b, ms, base)
 				c.Check(bound >= 0 && bound <= 16<<20, rule, pkg+".read|allocation bounded", w.Pos(ms.Pos()), "make([]byte, l) under must-fact l <= "+itoa(int(bound)), "the frame buffer is allocated without the must-fact 'declared length <= 16 MiB' (bound found: "+itoa(int(bound))+")")
 				bounds[pkg] = bound
 				// length comes from the 4-byte big-endian prefix
@@ -430,7 +409,30 @@ func framingRules(c *Ctx, rule string, pkgs []string) {
 				}
 				la := lenArg(bin.X)
 				k, isK := intConst(bin.Y)
-				return la != nil && w.Expr(la) == "p1" && isK && k <= 16<<20
+				if la != nil && w.Expr(la) == "p1" && isK && k <= 16<<20 {
+					return true
+				}
+				// the same test made by a size-check helper on its parameter, handed len(data) by the writer
+				numBase := func(v ssa.Value) ssa.Value {
+					for {
+						cv, ok := strip(v).(*ssa.Convert)
+						if !ok {
+							return strip(v)
+						}
+						v = cv.X
+					}
+				}
+				if p, isP := numBase(bin.X).(*ssa.Parameter); isP && p.Parent() != wr && isK && k <= 16<<20 {
+					for _, site := range w.sitesIn(wr, p.Parent()) {
+						a := site.Common().Args
+						if paramIndex(p) < len(a) && site.Parent() == wr && InstrDominates(site.(ssa.Instruction), call) {
+							if la2 := lenArg(numBase(a[paramIndex(p)])); la2 != nil && w.Expr(la2) == "p1" {
+								return true
+							}
+						}
+					}
+				}
+				return false
 			})
 			c.Check(ok, rule, pkg+".write|refuses oversized data", w.Pos(call.Pos()), "must-fact not (len(data) > bound)", "data longer than the bound can be written (the 4-byte length would wrap or the peer would refuse it)")
 		}
